@@ -127,7 +127,13 @@ def harness(cfg, ns):
                 self.path = path
                 self.categories = ["a", "b"]
 
-            def compute_gamma(self, **kw):
+            def compute_gamma(self, *a, **kw):
+                import inspect
+                try:
+                    kw = dict(inspect.signature(co.Continuum.compute_gamma).bind(self, *a, **kw).arguments)
+                    kw.pop("self", None)
+                except TypeError:
+                    pass
                 log["gamma"].append((self, kw))
                 log["events"].append("compute")
                 best = al.Alignment([], None, disorder=NPFloat32(ctx.fresh("obs!", lo=0).e))
@@ -241,14 +247,21 @@ def harness(cfg, ns):
                 break
             comb = log["combined"][i]
             cont, kw = log["gamma"][i]
-            k = comb.k
-            o.append(Obl("alpha-beta-delta_empty-forwarded", not comb.a and k.get("alpha") is A["alpha"] and k.get("beta") is A["beta"]
+            # positional or keyword arguments alike: bound against the real constructor's signature
+            import inspect
+            try:
+                k = dict(inspect.signature(saved["CombinedCategoricalDissimilarity"].__init__).bind(None, *comb.a, **comb.k).arguments)
+            except TypeError:
+                k = dict(comb.k)
+            o.append(Obl("alpha-beta-delta_empty-forwarded", k.get("alpha") is A["alpha"] and k.get("beta") is A["beta"]
                          and k.get("delta_empty") is A["empty_delta"], rz))
             cd = k.get("cat_dissim")
-            ok_cat = (cd is None) if want_cat is None else (cd is not None and getattr(cd, "name", None) == want_cat and list(cd.a[0]) == ["a", "b"])
+            ok_cat = (cd is None) if want_cat is None else (cd is not None and getattr(cd, "name", None) == want_cat and
+                                                                 list((list(cd.a) + list(cd.k.values()))[0]) == ["a", "b"])
             o.append(Obl(f"categorical-dissimilarity-option-takes-effect[{cfg['cd']}]", ok_cat, rz))
             o.append(Obl("compute_gamma-receives-the-options", cont.path is f and kw.get("dissimilarity") is comb and kw.get("precision_level") is A["precision_level"]
-                         and kw.get("n_samples") is A["n_samples"] and kw.get("fast") is True and not kw.get("soft", False), rz))
+                         and kw.get("n_samples") is A["n_samples"] and kw.get("fast") is True and not kw.get("soft", False)
+                         and kw.get("ground_truth_annotators") is None, rz))
             smp = kw.get("sampler")
             o.append(Obl("sampler-flag-takes-effect", (getattr(smp, "name", None) == "shuffle" and not smp.a and not smp.k) if mathet else smp is None, rz))
         # ---- the reported numbers are the API's numbers, per file
